@@ -14,7 +14,8 @@ Open Scope Z_scope.
 Record slotview := {
   v_side : side; v_id : Z; v_vals : list (option val);
   v_expired : bool; v_obsolete : bool;
-  v_reg : bool                               (* the connection's cache hands out this very object for its id *)
+  v_reg : bool;                              (* the connection's cache hands out this very object for its id *)
+  v_pending : list (option val)              (* _SO_createValues by column (sqlmeta.dirty = some column is queued) *)
 }.
 
 Inductive outcome := XRet (v : outv) | XExc (e : exc).
@@ -35,7 +36,7 @@ Record obs := {
 Record case := { c_cfg : config; c_steps : list (op * obs) }.
 
 Definition exc_idx (e : exc) : nat :=
-  match e with ENotFound => 0 | EOperational => 1 | EAssertion => 2 | EAttribute => 3 | EBadHandle => 4 end%nat.
+  match e with ENotFound => 0 | EOperational => 1 | EAssertion => 2 | EAttribute => 3 | EBadHandle => 4 | EDuplicate => 5 end%nat.
 Definition exc_eqb a b := Nat.eqb (exc_idx a) (exc_idx b).
 Definition vrow_eqb := list_eqb val_eqb.
 Definition stmt_eqb (a b : stmt) : bool :=
@@ -45,6 +46,7 @@ Definition stmt_eqb (a b : stmt) : bool :=
   | SCount s, SCount s' => side_eqb s s'
   | SInsert s, SInsert s' => side_eqb s s'
   | SUpdate s i c, SUpdate s' i' c' => side_eqb s s' && (i =? i') && Nat.eqb c c'
+  | SUpdateCols s i cs, SUpdateCols s' i' cs' => side_eqb s s' && (i =? i') && list_eqb Nat.eqb cs cs'
   | SDelete s i, SDelete s' i' => side_eqb s s' && (i =? i')
   | _, _ => false
   end.
@@ -66,7 +68,8 @@ Definition outcome_eqb (a b : outcome) : bool :=
   end.
 Definition slotview_eqb (a b : slotview) : bool :=
   side_eqb (v_side a) (v_side b) && (v_id a =? v_id b) && list_eqb (option_eqb val_eqb) (v_vals a) (v_vals b) &&
-  Bool.eqb (v_expired a) (v_expired b) && Bool.eqb (v_obsolete a) (v_obsolete b) && Bool.eqb (v_reg a) (v_reg b).
+  Bool.eqb (v_expired a) (v_expired b) && Bool.eqb (v_obsolete a) (v_obsolete b) && Bool.eqb (v_reg a) (v_reg b) &&
+  list_eqb (option_eqb val_eqb) (v_pending a) (v_pending b).
 Definition tab_eqb (a b : list (Z * row) * Z) : bool :=
   list_eqb (fun x y => (fst x =? fst y) && vrow_eqb (snd x) (snd y)) (fst a) (fst b) && (snd a =? snd b).
 Definition cacheview_eqb (a b : cacheview) : bool :=
@@ -85,7 +88,8 @@ Variable cfg : config.
 Definition slot_view (s : st) (x : side * nat) : slotview :=
   let i := get_inst s (fst x) (snd x) in
   {| v_side := fst x; v_id := i_id i; v_vals := i_vals i; v_expired := i_expired i; v_obsolete := i_obsolete i;
-     v_reg := match try_get cfg s (fst x) (i_id i) with Some o => Nat.eqb o (snd x) | None => false end |}.
+     v_reg := match try_get cfg s (fst x) (i_id i) with Some o => Nat.eqb o (snd x) | None => false end;
+     v_pending := i_pending i |}.
 
 Definition cache_view (s : st) (sd : side) : cacheview :=
   let c := cch s sd in
